@@ -46,6 +46,7 @@ const SERVER_PATTERNS: &[&str] = &[
     "abandon-accepted",
     "answered-then-reset-by-peer",
     "tiny-data-flood-between-abandoned-uploads",
+    "upload-read-after-peer-reset",
     "unit-flood",
     "unit-flood",
     "unit-flood",
@@ -201,6 +202,20 @@ pub fn build(c: &FloodCase, n: usize) -> RawCase {
                 if every > 0 && i % every == 0 {
                     script.push(PStep::Yield(2));
                 }
+            }
+        }
+        "upload-read-after-peer-reset" => {
+            // every request brings a body of a third of the stream window and is reset by the peer in the same burst;
+            // the application reads what is buffered, releases it (which falls due for a window update on a stream
+            // that is already closed) and lets go of the stream
+            let body = 22000 + pr.below(3000);
+            for _ in 0..n {
+                let id = next;
+                next += 2;
+                reqs.push(default_req(id));
+                script.push(hdr(id, "POST", false));
+                script.push(PStep::Data { stream: id, len: body, pad: None, end_stream: false, force: false });
+                script.push(fr(Frame::Rst { stream: id, code: 8 }));
             }
         }
         "answered-then-reset-by-peer" => {
@@ -525,7 +540,11 @@ impl Engine for FloodEngine {
     fn gen(&self, tapes: &[Vec<u32>]) -> FloodCase {
         let mut t = Tape::new(&tapes[0]);
         let client = t.chance(1, 4);
-        let pattern = if client { t.pick(CLIENT_PATTERNS) } else { t.pick(SERVER_PATTERNS) }.to_string();
+        let mut pattern = if client { t.pick(CLIENT_PATTERNS) } else { t.pick(SERVER_PATTERNS) }.to_string();
+        // (tens of megabytes per case: kept rare)
+        if pattern == "upload-read-after-peer-reset" && !t.chance(1, 5) {
+            pattern = "unit-flood".to_string();
+        }
         let mut cfg = plain_cfg();
         // without a configured limit any number of concurrently open streams is the peer's right
         if t.chance(1, 2) || pattern == "streams-over-limit" {
@@ -636,7 +655,10 @@ impl Engine for FloodEngine {
         // something still grows, and it is not a recorded finding, the flood is doubled again — up to 32n — and only
         // growth that persists to the end counts
         let is_known = |g: &Vec<(&'static str, usize, usize, usize)>| g.iter().any(|(w, _, _, _)| known().matches(&crate::runner::Violation::new("C18", "plateau", format!("C18/{}/{}/{}-grows-with-flood-length", role, descr, w), String::new())).is_some());
-        while !g.is_empty() && !is_known(&g) && m < 32 * c.n && m < 150_000 {
+        // (patterns that move tens of kilobytes per repetition stop at 8n — still several times h2's largest per-stream
+        // quota of 1024 — so that a growing run stays within memory)
+        let esc = if c.pattern == "upload-read-after-peer-reset" { 8 } else { 32 };
+        while !g.is_empty() && !is_known(&g) && m < esc * c.n && m < 150_000 {
             m *= 2;
             let cm = build(c, m);
             let rm = run_raw(&cm);
